@@ -2,6 +2,8 @@
   C06 — conditional inclusion follows the documented predicate for every entry kind.
 -/
 import Slinkyv
+import Props.C07
+import Props.C15
 namespace Slinky.C06
 open Slinky
 
@@ -26,5 +28,425 @@ theorem predicate (o : Opts) (c : Cond) : shouldEmit o c = specEmit o c := by
     generalize List.any (h :: t) (pairMatches o) = f
     generalize List.all (h' :: t') (pairMatches o) = g
     cases a <;> cases b <;> cases c' <;> cases f <;> cases g <;> rfl
+
+/-! ### options that nothing mentions never change any output -/
+
+/-- the keys a condition looks at. -/
+def condKeysOf (c : Cond) : List Str :=
+  (c.excludeIfAny ++ c.excludeIfAll ++ c.includeIfAny ++ c.includeIfAll).map (·.1)
+
+theorem any_congrP {α} (l : List α) (f g : α → Bool) (h : ∀ x ∈ l, f x = g x) : l.any f = l.any g := by
+  induction l with
+  | nil => rfl
+  | cons a as ih =>
+    simp only [List.any_cons, h a List.mem_cons_self, ih (fun x hx => h x (List.mem_cons_of_mem _ hx))]
+
+theorem all_congrP {α} (l : List α) (f g : α → Bool) (h : ∀ x ∈ l, f x = g x) : l.all f = l.all g := by
+  induction l with
+  | nil => rfl
+  | cons a as ih =>
+    simp only [List.all_cons, h a List.mem_cons_self, ih (fun x hx => h x (List.mem_cons_of_mem _ hx))]
+
+/-- the predicate depends on the option map only through the keys its four lists name. -/
+theorem shouldEmit_agree (o o' : Opts) (c : Cond) (h : ∀ k ∈ condKeysOf c, o k = o' k) :
+    shouldEmit o c = shouldEmit o' c := by
+  have hp : ∀ p ∈ c.excludeIfAny ++ c.excludeIfAll ++ c.includeIfAny ++ c.includeIfAll, pairMatches o p = pairMatches o' p := by
+    intro p hp
+    unfold pairMatches optGet
+    rw [h p.1 (List.mem_map.2 ⟨p, hp, rfl⟩)]
+  have e1 : c.excludeIfAny.any (pairMatches o) = c.excludeIfAny.any (pairMatches o') :=
+    any_congrP _ _ _ (fun p hp' => hp p (by simp [hp']))
+  have e2 : c.excludeIfAll.all (pairMatches o) = c.excludeIfAll.all (pairMatches o') :=
+    all_congrP _ _ _ (fun p hp' => hp p (by simp [hp']))
+  have e3 : c.includeIfAny.any (pairMatches o) = c.includeIfAny.any (pairMatches o') :=
+    any_congrP _ _ _ (fun p hp' => hp p (by simp [hp']))
+  have e4 : c.includeIfAll.all (pairMatches o) = c.includeIfAll.all (pairMatches o') :=
+    all_congrP _ _ _ (fun p hp' => hp p (by simp [hp']))
+  unfold shouldEmit
+  simp only [e1, e2, e3, e4]
+
+/-- the `{key}` markers of a token list / of a path. -/
+def tokKeys : List C07.Tok → List Str
+  | [] => []
+  | .key k :: rest => k :: tokKeys rest
+  | _ :: rest => tokKeys rest
+
+def pathKeysOf (p : Str) : List Str := ((components p).map fun c => tokKeys (C07.tokenize c)).flatten
+
+theorem expandToks_agree (o o' : Opts) : ∀ (t : List C07.Tok), (∀ k ∈ tokKeys t, o k = o' k) →
+    C07.expandToks o t = C07.expandToks o' t := by
+  intro t
+  induction t with
+  | nil => intro _; rfl
+  | cons x rest ih =>
+    intro h
+    cases x with
+    | lit c => simp only [C07.expandToks, ih (fun k hk => h k (by simpa [tokKeys] using hk))]
+    | key k =>
+      have hk : o k = o' k := h k (by simp [tokKeys])
+      simp only [C07.expandToks, optGet, hk, ih (fun k' hk' => h k' (by simp [tokKeys, hk']))]
+    | unterminated t => simp only [C07.expandToks, ih (fun k hk => h k (by simpa [tokKeys] using hk))]
+
+theorem escapeComponentsSpec_agree (o o' : Opts) : ∀ (cs : List Str) (buf : Str),
+    (∀ k ∈ (cs.map fun c => tokKeys (C07.tokenize c)).flatten, o k = o' k) →
+    C07.escapeComponentsSpec o buf cs = C07.escapeComponentsSpec o' buf cs := by
+  intro cs
+  induction cs with
+  | nil => intro buf _; rfl
+  | cons c rest ih =>
+    intro buf h
+    have h1 : C07.expandComponentSpec o c = C07.expandComponentSpec o' c :=
+      expandToks_agree o o' _ (fun k hk => h k (by simp [hk]))
+    simp only [C07.escapeComponentsSpec, h1]
+    cases C07.expandComponentSpec o' c with
+    | error e => rfl
+    | ok r => exact ih _ (fun k hk => h k (by simp only [List.map_cons, List.flatten_cons, List.mem_append]; exact Or.inr hk))
+
+/-- path expansion depends on the option map only through the keys of the path's markers. -/
+theorem escapePath_agree (o o' : Opts) (p : Str) (h : ∀ k ∈ pathKeysOf p, o k = o' k) :
+    escapePath o p = escapePath o' p := by
+  rw [C07.escapePath_spec]
+  exact escapeComponentsSpec_agree o o' _ _ h
+
+/-! #### the congruence: where the writer reads the option map -/
+
+mutual
+  /-- the two option maps decide the same about this entry and everything below it: same
+  inclusion verdict, same expansion of its path and of its group directory. -/
+  def FOk (o o' : Opts) : FileInfo → Prop
+    | .mk p _ _ _ _ _ _ fs dir c _ =>
+      shouldEmit o c = shouldEmit o' c ∧ escapePath o p = escapePath o' p ∧ escapePath o dir = escapePath o' dir ∧ FOkL o o' fs
+  def FOkL (o o' : Opts) : List FileInfo → Prop
+    | [] => True
+    | a :: as => FOk o o' a ∧ FOkL o o' as
+end
+
+theorem FOkL_mem (o o' : Opts) : ∀ (l : List FileInfo), FOkL o o' l → ∀ a ∈ l, FOk o o' a
+  | [], _, _, h => nomatch h
+  | b :: bs, h, a, ha => by
+    unfold FOkL at h
+    rcases List.mem_cons.1 ha with rfl | ha
+    · exact h.1
+    · exact FOkL_mem o o' bs h.2 a ha
+
+theorem concatMapE_congr_mem {α β ε} (f g : α → Except ε (List β)) : ∀ (l : List α), (∀ a ∈ l, f a = g a) →
+    concatMapE f l = concatMapE g l := by
+  intro l
+  induction l with
+  | nil => intro _; rfl
+  | cons a as ih =>
+    intro h
+    unfold concatMapE
+    rw [h a List.mem_cons_self, ih (fun x hx => h x (List.mem_cons_of_mem _ hx))]
+
+/-- the emitter reads the options only through the verdicts and expansions `FOk` fixes. -/
+theorem emitEntry_opts (cx : Ctx) (hesc : cx.esc = escapePath) (o' : Opts) (seg : Segment) (secs : List Str) :
+    ∀ (fuel : Nat) (f : FileInfo), FOk cx.o o' f → ∀ (sec base : Str) (parents : List Str),
+      emitEntry { cx with o := o' } seg secs fuel f sec base parents = emitEntry cx seg secs fuel f sec base parents := by
+  intro fuel
+  induction fuel with
+  | zero => intro f _ sec base parents; rfl
+  | succ n ih =>
+    intro f h sec base parents
+    obtain ⟨p, k, sf, pa, se, lo, so, fs, dir, c, keep⟩ := f
+    have hf := h
+    unfold FOk at h
+    obtain ⟨h1, h2, h3, h4⟩ := h
+    unfold emitEntry
+    simp only [FileInfo.cond, FileInfo.sectionOrder, FileInfo.keep, FileInfo.kind, FileInfo.path,
+      FileInfo.subfile, FileInfo.sect, FileInfo.padAmount, FileInfo.linkerOffsetName, FileInfo.dir, FileInfo.files]
+    have hch : ∀ kk base', concatMapE (fun child => emitEntry { cx with o := o' } seg secs n child kk base' []) fs
+        = concatMapE (fun child => emitEntry cx seg secs n child kk base' []) fs := by
+      intro kk base'
+      exact concatMapE_congr_mem _ _ fs (fun a ha => ih a (FOkL_mem _ _ fs h4 a ha) kk base' [])
+    have hsub : ∀ kk, concatMapE (fun other => emitEntry { cx with o := o' } seg secs n (.mk p k sf pa se lo so fs dir c keep) other base (sec :: parents)) (subgroupsOf seg kk)
+        = concatMapE (fun other => emitEntry cx seg secs n (.mk p k sf pa se lo so fs dir c keep) other base (sec :: parents)) (subgroupsOf seg kk) := by
+      intro kk
+      congr 1
+      funext other
+      exact ih _ hf other base (sec :: parents)
+    simp only [hch, hsub]
+    simp only [hesc]
+    rw [← h1, ← h2, ← h3]
+    rfl
+
+/-- the two option maps decide the same about a segment and everything in it. -/
+def SegOk (o o' : Opts) (seg : Segment) : Prop :=
+  shouldEmit o seg.cond = shouldEmit o' seg.cond ∧ escapePath o seg.dir = escapePath o' seg.dir ∧
+  (∀ g, seg.gpInfo = some g → shouldEmit o g.cond = shouldEmit o' g.cond) ∧ FOkL o o' seg.files
+
+theorem emitSection_opts (cx : Ctx) (hesc : cx.esc = escapePath) (o' : Opts) (seg : Segment)
+    (hb : escapePath cx.o cx.d.settings.basePath = escapePath o' cx.d.settings.basePath)
+    (hd : escapePath cx.o seg.dir = escapePath o' seg.dir) (hf : FOkL cx.o o' seg.files) (sec : Str) (sections : List Str) :
+    emitSection { cx with o := o' } seg sec sections = emitSection cx seg sec sections := by
+  unfold emitSection
+  have hc : ∀ base, concatMapE (fun file => emitEntry { cx with o := o' } seg sections (fuelFor seg) file sec base []) seg.files
+      = concatMapE (fun file => emitEntry cx seg sections (fuelFor seg) file sec base []) seg.files := by
+    intro base
+    exact concatMapE_congr_mem _ _ _ (fun a ha => emitEntry_opts cx hesc o' seg sections _ a (FOkL_mem _ _ _ hf a ha) sec base [])
+  simp only [hc]
+  simp only [hesc]
+  rw [← hb, ← hd]
+
+theorem gpLine_opts (cx : Ctx) (o' : Opts) (seg : Segment) (sec : Str)
+    (hg : ∀ g, seg.gpInfo = some g → shouldEmit cx.o g.cond = shouldEmit o' g.cond) :
+    gpLine { cx with o := o' } seg sec = gpLine cx seg sec := by
+  unfold gpLine
+  cases h : seg.gpInfo with
+  | none => rfl
+  | some g => simp only [← hg g h]
+
+theorem writeSegment_opts (cx : Ctx) (hesc : cx.esc = escapePath) (o' : Opts) (seg : Segment)
+    (hb : escapePath cx.o cx.d.settings.basePath = escapePath o' cx.d.settings.basePath)
+    (hs : SegOk cx.o o' seg) (sections : List Str) (noload : Bool) :
+    writeSegment { cx with o := o' } seg sections noload = writeSegment cx seg sections noload := by
+  unfold writeSegment sectionSymStart
+  simp only [emitSection_opts cx hesc o' seg hb hs.2.1 hs.2.2.2, gpLine_opts cx o' seg _ hs.2.2.1]
+  rfl
+
+theorem writeSingleSegment_opts (cx : Ctx) (hesc : cx.esc = escapePath) (o' : Opts) (seg : Segment)
+    (hb : escapePath cx.o cx.d.settings.basePath = escapePath o' cx.d.settings.basePath)
+    (hs : SegOk cx.o o' seg) (sections : List Str) (noload : Bool) :
+    writeSingleSegment { cx with o := o' } seg sections noload = writeSingleSegment cx seg sections noload := by
+  unfold writeSingleSegment sectionSymStart
+  simp only [emitSection_opts cx hesc o' seg hb hs.2.1 hs.2.2.2, gpLine_opts cx o' seg _ hs.2.2.1]
+  rfl
+
+theorem addSegment_opts (cx : Ctx) (hesc : cx.esc = escapePath) (o' : Opts) (seg : Segment)
+    (hb : escapePath cx.o cx.d.settings.basePath = escapePath o' cx.d.settings.basePath)
+    (hs : SegOk cx.o o' seg) (em : List Str) :
+    addSegment { cx with o := o' } em seg = addSegment cx em seg := by
+  unfold addSegment
+  simp only [writeSegment_opts cx hesc o' seg hb hs, ← hs.1]
+  rfl
+
+theorem addSegments_opts (cx : Ctx) (hesc : cx.esc = escapePath) (o' : Opts)
+    (hb : escapePath cx.o cx.d.settings.basePath = escapePath o' cx.d.settings.basePath) :
+    ∀ (l : List Segment), (∀ s ∈ l, SegOk cx.o o' s) → ∀ em,
+      addSegments { cx with o := o' } em l = addSegments cx em l := by
+  intro l
+  induction l with
+  | nil => intro _ em; rfl
+  | cons a as ih =>
+    intro h em
+    unfold addSegments
+    rw [addSegment_opts cx hesc o' a hb (h a List.mem_cons_self) em]
+    simp only [ih (fun s hs => h s (List.mem_cons_of_mem _ hs))]
+
+theorem addSingleSegment_opts (cx : Ctx) (hesc : cx.esc = escapePath) (o' : Opts) (seg : Segment)
+    (hb : escapePath cx.o cx.d.settings.basePath = escapePath o' cx.d.settings.basePath)
+    (hs : SegOk cx.o o' seg) :
+    addSingleSegment { cx with o := o' } seg = addSingleSegment cx seg := by
+  unfold addSingleSegment
+  simp only [writeSingleSegment_opts cx hesc o' seg hb hs]
+  rfl
+
+theorem addAllSegments_opts (cx : Ctx) (hesc : cx.esc = escapePath) (o' : Opts)
+    (hb : escapePath cx.o cx.d.settings.basePath = escapePath o' cx.d.settings.basePath)
+    (hs : ∀ s ∈ cx.d.segments, SegOk cx.o o' s) :
+    addAllSegments { cx with o := o' } = addAllSegments cx := by
+  unfold addAllSegments
+  simp only [addSegments_opts cx hesc o' hb _ hs]
+  split
+  · split
+    · rename_i seg heq
+      have : seg ∈ cx.d.segments := by
+        have h2 : cx.d.segments = [seg] := heq
+        rw [h2]; exact List.mem_cons_self
+      simp only [addSingleSegment_opts cx hesc o' seg hb (hs seg this)]
+    · rfl
+  · rfl
+
+/-- the two option maps decide the same about everything a document holds: conditions of
+segments, entries, `gp_info` and top-level statements; expansions of `base_path`,
+`target_path`, segment and group directories, entry paths and partial-object paths. -/
+def DocOk (o o' : Opts) (d : Document) : Prop :=
+  escapePath o d.settings.basePath = escapePath o' d.settings.basePath ∧
+  (∀ t, d.settings.targetPath = some t → escapePath o t = escapePath o' t) ∧
+  (∀ s ∈ d.segments, SegOk o o' s) ∧
+  (∀ folder, d.settings.partialBuildSegmentsFolder = some folder → ∀ s ∈ d.segments,
+    escapePath o (pathPush folder (s.name ++ c!".o")) = escapePath o' (pathPush folder (s.name ++ c!".o"))) ∧
+  (∀ a ∈ d.symbolAssignments, shouldEmit o a.cond = shouldEmit o' a.cond) ∧
+  (∀ a ∈ d.requiredSymbols, shouldEmit o a.cond = shouldEmit o' a.cond) ∧
+  (∀ a ∈ d.asserts, shouldEmit o a.cond = shouldEmit o' a.cond)
+
+theorem filter_congrP {α} (l : List α) (f g : α → Bool) (h : ∀ x ∈ l, f x = g x) : l.filter f = l.filter g := by
+  induction l with
+  | nil => rfl
+  | cons a as ih =>
+    simp only [List.filter_cons, h a List.mem_cons_self, ih (fun x hx => h x (List.mem_cons_of_mem _ hx))]
+
+theorem topLevel_opts (d : Document) (o o' : Opts) (h : DocOk o o' d) : topLevel d o' = topLevel d o := by
+  unfold topLevel
+  rw [filter_congrP d.symbolAssignments _ _ (fun a ha => (h.2.2.2.2.1 a ha).symm),
+    filter_congrP d.requiredSymbols _ _ (fun a ha => (h.2.2.2.2.2.1 a ha).symm),
+    filter_congrP d.asserts _ _ (fun a ha => (h.2.2.2.2.2.2 a ha).symm)]
+
+theorem generateNormal_opts (d : Document) (o o' : Opts) (h : DocOk o o' d) (vc : Bool) :
+    generateNormal d o' vc = generateNormal d o vc := by
+  unfold generateNormal
+  have := addAllSegments_opts { d := d, o := o, esc := escapePath } rfl o' h.1 h.2.2.1
+  simp only at this
+  rw [this, topLevel_opts d o o' h]
+
+theorem partialSegment_ok (o o' : Opts) (folder : Str) (seg : Segment) (hs : SegOk o o' seg)
+    (hp : escapePath o (pathPush folder (seg.name ++ c!".o")) = escapePath o' (pathPush folder (seg.name ++ c!".o"))) :
+    SegOk o o' (partialSegment folder seg) := by
+  refine ⟨hs.1, hs.2.1, hs.2.2.1, ?_⟩
+  show FOkL o o' [FileInfo.newObject (pathPush folder (seg.name ++ c!".o"))]
+  unfold FOkL FileInfo.newObject FOk
+  refine ⟨⟨rfl, hp, ?_, by unfold FOkL; trivial⟩, by unfold FOkL; trivial⟩
+  show escapePath o [] = escapePath o' []
+  rw [C07.escapePath_spec]
+  rfl
+
+theorem partialSegments_opts (d : Document) (o o' : Opts) (vc : Bool) (folder : Str)
+    (hb : escapePath o d.settings.basePath = escapePath o' d.settings.basePath) :
+    ∀ (l : List Segment), (∀ s ∈ l, SegOk o o' s ∧
+        escapePath o (pathPush folder (s.name ++ c!".o")) = escapePath o' (pathPush folder (s.name ++ c!".o"))) → ∀ em,
+      partialSegments d o' vc folder escapePath em l = partialSegments d o vc folder escapePath em l := by
+  intro l
+  induction l with
+  | nil => intro _ em; rfl
+  | cons a as ih =>
+    intro h em
+    obtain ⟨hs, hp⟩ := h a List.mem_cons_self
+    unfold partialSegments
+    have h1 := addSingleSegment_opts { d := d, o := o, emitKindSyms := false, emitSecSyms := false, esc := escapePath } rfl o' a hb hs
+    simp only at h1
+    have h2 : ∀ em, addSegment { d := d, o := o', refPartial := true, esc := escapePath } em (partialSegment folder a)
+        = addSegment { d := d, o := o, refPartial := true, esc := escapePath } em (partialSegment folder a) := by
+      intro em
+      exact addSegment_opts { d := d, o := o, refPartial := true, esc := escapePath } rfl o' _ hb (partialSegment_ok o o' folder a hs hp) em
+    simp only [h1, h2, ← hs.1, ih (fun s hs' => h s (List.mem_cons_of_mem _ hs'))]
+
+theorem generatePartial_opts (d : Document) (o o' : Opts) (h : DocOk o o' d) (vc : Bool) :
+    generatePartial d o' vc = generatePartial d o vc := by
+  unfold generatePartial
+  cases hf : d.settings.partialBuildSegmentsFolder with
+  | none => rfl
+  | some folder =>
+    simp only []
+    rw [partialSegments_opts d o o' vc folder h.1 d.segments (fun s hs => ⟨h.2.2.1 s hs, h.2.2.2.1 folder hf s hs⟩) [],
+      topLevel_opts d o o' h]
+    rfl
+
+theorem mainDeps_opts (d : Document) (o o' : Opts) (h : DocOk o o' d) (vc : Bool) (ls : List Line) :
+    mainDeps d o' vc ls = mainDeps d o vc ls := by
+  unfold mainDeps optEscape
+  cases ht : d.settings.targetPath with
+  | none => rfl
+  | some t => simp only [← h.2.1 t ht]
+
+theorem partialDepsOf_opts (d : Document) (o o' : Opts) (h : DocOk o o' d) (vc : Bool) (ps : List (Str × List Line))
+    (hf : ∀ f, d.settings.partialBuildSegmentsFolder = some f → escapePath o f = escapePath o' f) :
+    partialDepsOf d o' vc escapePath ps = partialDepsOf d o vc escapePath ps := by
+  unfold partialDepsOf partialTarget optEscape
+  cases hp : d.settings.partialBuildSegmentsFolder with
+  | none => simp only [← h.1]
+  | some f => simp only [← h.1, ← hf f hp]
+
+/-- **the congruence**: two option maps about which the document cannot tell the difference
+(`DocOk`, and the same expansion of `partial_build_segments_folder`) generate the same
+outputs in both modes. -/
+theorem generate_opts (d : Document) (o o' : Opts) (h : DocOk o o' d)
+    (hf : ∀ f, d.settings.partialBuildSegmentsFolder = some f → escapePath o f = escapePath o' f)
+    (m : Mode) (vc : Bool) :
+    generate d o' m vc = generate d o m vc := by
+  unfold generate
+  rw [generateNormal_opts d o o' h vc, generatePartial_opts d o o' h vc]
+  simp only [mainDeps_opts d o o' h, partialDepsOf_opts d o o' h vc _ hf]
+
+/-! #### the keys a document mentions -/
+
+mutual
+  def fileKeys : FileInfo → List Str
+    | .mk p _ _ _ _ _ _ fs dir c _ => condKeysOf c ++ pathKeysOf p ++ pathKeysOf dir ++ filesKeys fs
+  def filesKeys : List FileInfo → List Str
+    | [] => []
+    | f :: fs => fileKeys f ++ filesKeys fs
+end
+
+def segKeys (seg : Segment) : List Str :=
+  condKeysOf seg.cond ++ pathKeysOf seg.dir
+  ++ (match seg.gpInfo with | some g => condKeysOf g.cond | none => [])
+  ++ filesKeys seg.files
+
+/-- every key a condition list or a `{key}` marker of the document names (markers in segment
+names count where the name becomes part of a partial-object path). -/
+def docKeys (d : Document) : List Str :=
+  pathKeysOf d.settings.basePath
+  ++ (match d.settings.targetPath with | some t => pathKeysOf t | none => [])
+  ++ (match d.settings.partialBuildSegmentsFolder with
+      | some f => pathKeysOf f ++ (d.segments.map fun s => pathKeysOf (pathPush f (s.name ++ c!".o"))).flatten
+      | none => [])
+  ++ (d.segments.map segKeys).flatten
+  ++ (d.symbolAssignments.map fun a => condKeysOf a.cond).flatten
+  ++ (d.requiredSymbols.map fun a => condKeysOf a.cond).flatten
+  ++ (d.asserts.map fun a => condKeysOf a.cond).flatten
+
+theorem fileKeys_ok (o o' : Opts) : ∀ (f : FileInfo), (∀ k ∈ fileKeys f, o k = o' k) → FOk o o' f
+  | .mk p kd sf pa se lo so fs dir c keep, h => by
+    unfold fileKeys at h
+    unfold FOk
+    refine ⟨shouldEmit_agree o o' c (fun k hk => h k (by simp [hk])),
+      escapePath_agree o o' p (fun k hk => h k (by simp [hk])),
+      escapePath_agree o o' dir (fun k hk => h k (by simp [hk])),
+      filesKeys_ok fs (fun k hk => h k (by simp [hk]))⟩
+where
+  filesKeys_ok : ∀ (l : List FileInfo), (∀ k ∈ filesKeys l, o k = o' k) → FOkL o o' l
+  | [], _ => by unfold FOkL; trivial
+  | f :: fs, h => by
+    unfold filesKeys at h
+    unfold FOkL
+    exact ⟨fileKeys_ok o o' f (fun k hk => h k (by simp [hk])), filesKeys_ok fs (fun k hk => h k (by simp [hk]))⟩
+
+theorem segKeys_ok (o o' : Opts) (seg : Segment) (h : ∀ k ∈ segKeys seg, o k = o' k) : SegOk o o' seg := by
+  unfold segKeys at h
+  refine ⟨shouldEmit_agree o o' _ (fun k hk => h k (by simp [hk])),
+    escapePath_agree o o' _ (fun k hk => h k (by simp [hk])), ?_,
+    fileKeys_ok.filesKeys_ok o o' _ (fun k hk => h k (by simp [hk]))⟩
+  intro g hg
+  exact shouldEmit_agree o o' _ (fun k hk => h k (by simp [hg, hk]))
+
+/-- **C06: custom options that no condition and no path mentions never change any output.**
+If two option maps agree on every key that a condition list or a `{key}` marker of the
+document names, every output of both modes is the same — in particular adding, removing or
+changing any other option changes nothing. -/
+theorem unmentioned_options_change_nothing (d : Document) (o o' : Opts) (h : ∀ k ∈ docKeys d, o k = o' k)
+    (m : Mode) (vc : Bool) : generate d o' m vc = generate d o m vc := by
+  unfold docKeys at h
+  apply generate_opts d o o' ?_ ?_ m vc
+  · refine ⟨escapePath_agree o o' _ (fun k hk => h k (by simp [hk])), ?_, ?_, ?_, ?_, ?_, ?_⟩
+    · intro t ht
+      exact escapePath_agree o o' _ (fun k hk => h k (by simp [ht, hk]))
+    · intro s hs
+      exact segKeys_ok o o' s (fun k hk => h k (by
+        simp only [List.mem_append, List.mem_flatten, List.mem_map]
+        exact Or.inl (Or.inl (Or.inl (Or.inr ⟨segKeys s, ⟨s, hs, rfl⟩, hk⟩)))))
+    · intro folder hf s hs
+      exact escapePath_agree o o' _ (fun k hk => h k (by
+        simp only [hf, List.mem_append, List.mem_flatten, List.mem_map]
+        exact Or.inl (Or.inl (Or.inl (Or.inl (Or.inr (Or.inr ⟨_, ⟨s, hs, rfl⟩, hk⟩)))))))
+    · intro a ha
+      exact shouldEmit_agree o o' _ (fun k hk => h k (by
+        simp only [List.mem_append, List.mem_flatten, List.mem_map]
+        exact Or.inl (Or.inl (Or.inr ⟨_, ⟨a, ha, rfl⟩, hk⟩))))
+    · intro a ha
+      exact shouldEmit_agree o o' _ (fun k hk => h k (by
+        simp only [List.mem_append, List.mem_flatten, List.mem_map]
+        exact Or.inl (Or.inr ⟨_, ⟨a, ha, rfl⟩, hk⟩)))
+    · intro a ha
+      exact shouldEmit_agree o o' _ (fun k hk => h k (by
+        simp only [List.mem_append, List.mem_flatten, List.mem_map]
+        exact Or.inr ⟨_, ⟨a, ha, rfl⟩, hk⟩))
+  · intro f hf
+    exact escapePath_agree o o' _ (fun k hk => h k (by
+      simp only [hf, List.mem_append]
+      exact Or.inl (Or.inl (Or.inl (Or.inl (Or.inr (Or.inl hk)))))))
+
+/-- the hypothesis is non-trivial: an option the document does not mention may differ. -/
+example : ∀ k ∈ docKeys (C15.exDoc []), (fun _ => none : Opts) k = (fun k => if k = c!"zz" then some c!"1" else none : Opts) k := by
+  decide
 
 end Slinky.C06
